@@ -169,6 +169,9 @@ func c20Forms() []formCase {
 		"std-struct-literal":      "url.URL{}",
 		"std-func-four-results":   "net.SplitHostPort, strconv.ParseFloat",
 		"std-func-second-not-err": "strings.Cut",
+		"std-var-pointer":         "os.Stdout",
+		"std-var-error":           "os.ErrNotExist",
+		"std-var-func-typed":      "strconv.ErrSyntax, os.Args",
 	}
 	for _, k := range sortedStrKeys(foreign) {
 		imp := "import (\n\t\"net\"\n\t\"net/url\"\n\t\"os\"\n\t\"strconv\"\n\t\"strings\"\n\n\t\"github.com/google/wire\"\n)\n\nvar _ = net.SplitHostPort\nvar _ = url.Parse\nvar _ = os.Exit\nvar _ = strconv.Itoa\nvar _ = strings.Cut\n"
